@@ -511,7 +511,7 @@ def backward_slice(body, o, depth=40):
     """transitive backward data slice of an operand inside one body.
     Returns dict with 'calls' (list of call terminators), 'fields' (set of field names read),
     'consts' (set of ints), 'ops' (set of binary/unary operator names), 'args' (set of argument locals)"""
-    out = {"calls": [], "fields": set(), "consts": set(), "ops": set(), "args": set(), "aggs": []}
+    out = {"calls": [], "fields": set(), "consts": set(), "ops": set(), "args": set(), "aggs": [], "elems": set()}
     seen = set()
 
     def visit_op(o, d):
@@ -527,6 +527,9 @@ def backward_slice(body, o, depth=40):
     def visit_place(p, d):
         for f in place_fields(p):
             out["fields"].add(f)
+        for e in p["p"]:
+            if e.startswith("[c"):
+                out["elems"].add(e)
         l = p["l"]
         if l in seen or d <= 0:
             return
@@ -574,7 +577,7 @@ def slice_with_captures(F, body, o, depth=40):
                     if rv["r"] == "agg" and rv["ak"] == "closure" and rv["adt"] == body.path:
                         for op in rv["ops"]:
                             ps = slice_with_captures(F, parent, op, depth)
-                            for k in ("fields", "consts", "ops", "args"):
+                            for k in ("fields", "consts", "ops", "args", "elems"):
                                 sl[k] |= ps[k] if k != "args" else set()
                             sl["calls"] += ps["calls"]
                             sl["aggs"] += ps["aggs"]
